@@ -61,6 +61,9 @@ BUILD = {
                  "SAVE solution 13\nSAVE exchange 13\nSAVE surface 13\nSAVE equilibrium_phases 13\nEND\n",
     # a rate with 13 parameters: the RAW dump spreads -d_params over three lines (5 + 6 + 2)
     "b_kin_parms": "SOLUTION 14\n pH 7.2\n Na 4\n Cl 4 charge\n Ca 0.5\n C 1\nKINETICS 14\n multi\n -formula NaCl 1 KBr 0.5\n -m0 0.02\n -parms 1e-7 2 3 4 5 6 2 0.5 1.5 0.25 7 8 9\n -steps 300 600\n -tol 1e-9\nSAVE solution 14\nEND\n",
+    # step lists longer than one line of the RAW dump (5 values on the first line, 6 on the following ones)
+    "b_lists": "SOLUTION 15\n pH 7\n Na 2\n Cl 2 charge\n Ca 0.4\n C 0.8\nREACTION_TEMPERATURE 15\n 10 20 30 40 50 60 70 80\nREACTION_PRESSURE 15\n 1 5 10 15 20 25 30 35\n"
+               "REACTION 15\n NaCl 1\n CaCl2 0.25\n 0.1 0.2 0.3 0.4 0.5 0.6 0.7 0.8 mmol\nREACTION_TEMPERATURE 16\n 15 75 in 7 steps\nREACTION 16\n HCl 1\n 1 mmol in 8 steps\nSAVE solution 15\nEND\n",
     "b_redox": "SOLUTION 10\n pH 6.5\n pe 2\n Fe(2) 0.1\n Fe(3) 0.002\n N(5) 0.4\n N(-3) 0.05\n S(6) 1\n S(-2) 0.001\n Na 3\n Cl 2 charge\n -water 0.7\nEND\n",
 }
 BUILD_DB = {k: "phreeqc" for k in BUILD}
@@ -88,7 +91,7 @@ def generate(rng, tier, index):
         names = ["b_iso"] if fam == "iso" else ["b_pitzer"]
     k = rng.range(1, len(names))
     return {"prop": PROP, "db": fam, "builders": names, "checkpoint": k, "via_file": rng.chance(35), "chunk": rng.choice([0, 1, 13, 512]), "eintr": rng.choice([0, 0, 2]),
-            "followups": [rng.choice(["use_eq", "run_cells", "run_kin", "mix", "adv", "use_eq_hot"]) for _ in range(rng.range(1, 3))], "pick": rng.below(1000),
+            "followups": [rng.choice(["use_eq", "run_cells", "run_kin", "mix", "adv", "use_eq_hot", "use_stored", "use_stored"]) for _ in range(rng.range(1, 3))], "pick": rng.below(1000),
             "inmem": rng.choice([None, None, "storagebin_roundtrip", "serialize_roundtrip", "copy_engine_dump", "storagebin_cell_roundtrip"]), "modify": rng.chance(40)}
 
 
@@ -100,6 +103,17 @@ def followup_text(kind, sols, others, pick):
         return SEL + "USE solution %d\nEQUILIBRIUM_PHASES 99\n Calcite 0 0.01\n Gypsum 0 0\nSAVE solution 98\nEND\n" % n
     if kind == "use_eq_hot":
         return SEL + "USE solution %d\nREACTION_TEMPERATURE 99\n 45\nREACTION 99\n HCl 1\n 0.1 0.2 mmol\nEND\n" % n
+    if kind == "use_stored":
+        # a calculation that uses the stored step lists themselves (REACTION amounts, temperature and pressure lists, MIX fractions)
+        nums = sorted(set(e.n for e in others if e.kind in ("reaction", "reaction_temperature", "reaction_pressure") and e.n >= 0))
+        if not nums:
+            return None
+        m = nums[(pick // 3) % len(nums)]
+        t = SEL + "USE solution %d\n" % n
+        for kd in ("reaction", "reaction_temperature", "reaction_pressure"):
+            if any(e.kind == kd and e.n == m for e in others):
+                t += "USE %s %d\n" % (kd, m)
+        return t + "END\n"
     kin = set(e.n for e in others if e.kind == "kinetics")
     if kind == "run_kin":
         cells = [c for c in sols if 0 < c < 60 and c in kin][:3]
